@@ -231,7 +231,7 @@ pub fn run(thorough: bool, mut rng: Rng, mut out: Out) {
         }
     }
     // random mixes of timed and untimed operations
-    let n = if thorough { 3000 } else { 250 };
+    let n = if thorough { 15000 } else { 1500 };
     for k in 0..n {
         let n_ops = rng.range(2, 8) as usize;
         let script = crate::lanes::routing::gen_script_ex(&mut rng, n_ops, false, true, true, k % 5 == 0);
